@@ -1,5 +1,5 @@
 // bounded-pkg: ledger/common
-// bounded-bound: all 65536 ordered pairs of multi-asset values over 2 policies x 2 asset names with each quantity in {absent, 0, 1, 2}, plus 1536 pairs with nil quantities and quantities of 2^64 and -1
+// bounded-bound: all 65536 ordered pairs of multi-asset values over 2 policies x 2 asset names with each quantity in {absent, 0, 1, 2} (thorough tier: {absent, 0, 1, 2, 3}, 390625 pairs), plus 1536 pairs with nil quantities and quantities of 2^64 and -1
 //
 // Bounded stand-in for MultiAsset.Compare (C06, and the equality test of C32's collateral rules).
 // Compare's correctness rests on a counting argument (the other value's non-zero entries are matched
@@ -12,6 +12,7 @@ package common
 
 import (
 	"math/big"
+	"os"
 	"testing"
 
 	"github.com/blinklabs-io/gouroboros/cbor"
@@ -59,6 +60,9 @@ func bcEqual(a, b bcVal) bool {
 
 func TestVerifBounded(t *testing.T) {
 	small := []*big.Int{nil, big.NewInt(0), big.NewInt(1), big.NewInt(2)}
+	if os.Getenv("VERIF_TIER") == "thorough" {
+		small = append(small, big.NewInt(3))
+	}
 	var vals []bcVal
 	for _, q0 := range small {
 		for _, q1 := range small {
